@@ -142,6 +142,28 @@ func (Engine) Execute(t *testing.T, cfg simkit.RunConfig, scenario any) *simkit.
 		}
 		vs = append(vs, simkit.Violation{Property: "C11", Class: cls, Sig: firstWords(p, 3), Detail: p + " | layout at start: " + w.layout0 + " | layout at end: " + layoutEnd})
 	}
+	if s.Aborted == "" && sc.Mode == "exact" {
+		// Mode exact loses no message and every injected fault hits one request once, so a call can
+		// only run out of its retry budget (20 s of back-off) after several faults of its own; a call
+		// that fails with fewer than three did not fail because of the network.
+		for _, recs := range w.hist {
+			for _, r := range recs {
+				if r.Err == "" {
+					continue
+				}
+				faults := 0
+				for _, t := range trace {
+					if t.Client == r.Client && t.SubmitSeq > r.Inv && t.SubmitSeq < r.Ret && t.Fate != simkit.Deliver {
+						faults++
+					}
+				}
+				if faults < 3 {
+					vs = append(vs, simkit.Violation{Property: "C11", Class: "call-failed", Sig: r.Op.Kind + " " + firstWords(r.Err, 1),
+						Detail: fmt.Sprintf("the call failed after %v of simulated time although only %d of its requests met an injected fault: %s | layout at start: %s | layout at end: %s", r.RetAt-r.InvAt, faults, fmtRec(r), w.layout0, layoutEnd)})
+				}
+			}
+		}
+	}
 	if s.Aborted == "" {
 		ever := everWritten(sc)
 		for _, recs := range w.hist {
@@ -345,6 +367,10 @@ func traceDigest(tr []*simkit.RPCRecord, hist [][]*OpRec) []string {
 	for _, hs := range hist {
 		for _, r := range hs {
 			line := fmtRec(r)
+			if i := strings.Index(line, " ERR "); i >= 0 {
+				// which of two errors that became ready at the same instant is reported is a runtime choice
+				line = line[:i] + " ERR"
+			}
 			// stamps depend on the order in which goroutines woken by one event ran: not canonical
 			if i := strings.Index(line, " ["); i >= 0 {
 				if j := strings.Index(line[i:], "] t="); j >= 0 {
